@@ -129,6 +129,10 @@ Catalog == << G("Point", PtK(5)), G("LineString", <<>>), G("Polygon", PathsK(2, 
 Collections(LG) == {G("GeometryCollection", [i \in DOMAIN s |-> Catalog[s[i]]]) : s \in Vecs(LG, DOMAIN Catalog)}
 Geoms(L, LG) == Leaves(L) \cup Collections(LG)
 
+(* deep elements: a leaf wrapped in d one-member collections ("collections nested to any depth") *)
+RECURSIVE DeepG(_, _)
+DeepG(g, d) == IF d = 0 THEN g ELSE G("GeometryCollection", <<DeepG(g, d - 1)>>)
+
 (* wide elements: member counts around an implementation's allocation hints and around the byte boundaries of the
    32-bit count field; alone and as a collection member that is followed by another member *)
 Ones(n) == [i \in 1..n |-> 1]
